@@ -6,6 +6,7 @@ edit is matched on whitespace/comment-normalised tokens and must match the decla
 times, otherwise `LostAnchor` is raised and the unit is *undecided* (never a pass, never an alarm).
 """
 import re
+IDENT_RE = re.compile(r'^[A-Za-z_][A-Za-z0-9_]*$')
 
 
 class LostAnchor(Exception):
@@ -329,10 +330,70 @@ class Item:
         return o
 
     # -- edit kinds ----------------------------------------------------------------------
+    def replace_wild(self, kind, pat_src, rep_src, count, why=""):
+        """`replace` with one wildcard: the pattern token `__1` matches a non-empty bracket-balanced run of tokens
+        (shortest run after which the rest of the pattern matches, never across a `;` or an unmatched closer);
+        `__1` in the replacement stands for the matched run, verbatim.  Lets an edit rewrite the *shape* of a call
+        (`callback(&input[..__1])`) without naming the expression a change may touch."""
+        pat = texts(tokenize(pat_src))
+        w = pat.index("__1")
+        pre, post = pat[:w], pat[w + 1:]
+        if not pre or not post:
+            raise LostAnchor("%s: the wildcard needs literal tokens on both sides" % kind)
+        T = self.toks
+        hits = []
+        i = 0
+        while i + len(pre) < len(T):
+            if texts(T[i:i + len(pre)]) == pre and all(T[i + k].line != 0 for k in range(len(pre))):
+                j = i + len(pre)
+                d = 0
+                end = None
+                while j < len(T):
+                    if d == 0 and j > i + len(pre) and texts(T[j:j + len(post)]) == post:
+                        end = j
+                        break
+                    t = T[j].s
+                    if t in OPEN:
+                        d += 1
+                    elif t in CLOSE:
+                        d -= 1
+                        if d < 0:
+                            break
+                    elif t == ";" and d == 0:
+                        break
+                    j += 1
+                if end is not None:
+                    hits.append((i, i + len(pre), end, end + len(post)))
+                    i = end + len(post)
+                    continue
+            i += 1
+        if count >= 0 and len(hits) != count:
+            raise LostAnchor("%s: pattern `%s` matched %d times in %s, expected %d"
+                             % (kind, " ".join(pat), len(hits), self.path, count))
+        rep = tokenize(rep_src)
+        for (a, b, c, e) in reversed(hits):
+            mid = [Tok(t.ws, t.s, t.line) for t in T[b:c]]
+            new = []
+            for t in rep:
+                if t.s == "__1":
+                    m2 = [Tok(x.ws, x.s, x.line) for x in mid]
+                    if m2:
+                        m2[0].ws = t.ws
+                    new += m2
+                else:
+                    new.append(Tok(t.ws, t.s, T[a].line))
+            if new:
+                new[0].ws = T[a].ws if T[a].ws else " "
+            T[a:e] = new
+        self.log.append({"kind": kind, "match": " ".join(pat), "replace": " ".join(texts(rep)),
+                         "count": len(hits), "declared_count": ("any" if count < 0 else count), "why": why})
+
     def replace(self, kind, pat_src, rep_src, count, why=""):
         pat = texts(tokenize(pat_src))
         if not pat:
             raise LostAnchor("empty pattern in %s edit" % kind)
+        if "__1" in pat:
+            return self.replace_wild(kind, pat_src, rep_src, count, why)
         hits = find_seq(self.toks, pat)
         # only text that came from /repo can be replaced (inserted contract text has line 0)
         hits = [h for h in hits if all(self.toks[h + k].line != 0 for k in range(len(pat)))]
@@ -1016,7 +1077,12 @@ class Item:
             if B and not B[0].ws:
                 B[0].ws = " "
             if name in ("filter", "skip_while", "take_while"):
-                body += sc("\n let __c%d = { let" % k) + P + sc(" = &%s;" % x) + B + sc(" };")
+                if len(P) == 2 and P[0].s == "&" and IDENT_RE.match(P[1].s):
+                    # `|&v|` against the `&Item` argument binds v to a copy of the item (Item: Copy, or rustc
+                    # would have rejected the original): `let v = item;`
+                    body += sc("\n let __c%d = { let" % k) + [Tok(" ", P[1].s, P[1].line)] + sc(" = %s;" % x) + B + sc(" };")
+                else:
+                    body += sc("\n let __c%d = { let" % k) + P + sc(" = &%s;" % x) + B + sc(" };")
                 if name == "filter":
                     body += sc(" if __c%d {" % k)
                     closers += 1
@@ -1041,7 +1107,12 @@ class Item:
                 FP[0].ws = " "
             if FB and not FB[0].ws:
                 FB[0].ws = " "
-            body += sc("\n let __cf = { let") + FP + sc(" = &__x%d;" % k) + FB + sc(" }; if __cf { %s = Some(__x%d); break; }" % (out, k)) + sc(" }" * closers)
+            if len(FP) == 2 and FP[0].s == "&" and IDENT_RE.match(FP[1].s):
+                FP = [Tok(" ", FP[1].s, FP[1].line)]
+                fsrc = " = __x%d;" % k
+            else:
+                fsrc = " = &__x%d;" % k
+            body += sc("\n let __cf = { let") + FP + sc(fsrc) + FB + sc(" }; if __cf { %s = Some(__x%d); break; }" % (out, k)) + sc(" }" * closers)
             pre = sc("{ let mut %s: Option<%s> = None;" % (out, elem)) + pre[len(sc("{ let mut %s: Vec<%s> = Vec::new();" % (out, elem))):]
         else:
             body += sc("\n %s.push(__x%d);" % (out, k)) + sc(" }" * closers)
